@@ -56,6 +56,31 @@ func (c *FnCtx) specEnvAt(st *State, pos token.Pos) *Env {
 			}
 		}
 	}
+	// locals of nested blocks that are still live in this path's state (e.g. at "loop N end")
+	if pos.IsValid() {
+		best := map[string]types.Object{}
+		consider := func(o types.Object) {
+			v, ok := o.(*types.Var)
+			if !ok || v.Pkg() == nil || v.Parent() == v.Pkg().Scope() || v.Pos() > pos {
+				return
+			}
+			if _, dup := names[o.Name()]; dup {
+				return
+			}
+			if b, ok := best[o.Name()]; !ok || b.Pos() < o.Pos() {
+				best[o.Name()] = o
+			}
+		}
+		for o := range st.vars {
+			consider(o)
+		}
+		for o := range st.locs {
+			consider(o)
+		}
+		for n, o := range best {
+			names[n] = c.varVal(st, o)
+		}
+	}
 	oldNames := map[string]Val{}
 	for n, o := range c.specNames {
 		oldNames[n] = c.varVal(c.entry, o)
@@ -910,7 +935,28 @@ func (c *FnCtx) runGhosts(st *State, site string, pos token.Pos) {
 		if u.At != site {
 			continue
 		}
-		c.guarded(st, func() { c.useLemma(st, u, pos) })
+		// a use whose arguments name variables that do not exist on this path is skipped (only hypotheses are lost)
+		func() {
+			defer func() {
+				if r := recover(); r != nil {
+					if ue, ok := r.(unsupportedErr); ok && strings.Contains(ue.msg, "unknown name") {
+						return
+					}
+					panic(r)
+				}
+			}()
+			c.guarded(st, func() {
+				defer func() {
+					if r := recover(); r != nil {
+						if ue, ok := r.(unsupportedErr); ok && strings.Contains(ue.msg, "unknown name") {
+							return
+						}
+						panic(r)
+					}
+				}()
+				c.useLemma(st, u, pos)
+			})
+		}()
 		if st.dead {
 			return
 		}
@@ -960,6 +1006,21 @@ func (c *FnCtx) execGhost(st *State, g GhostStmt, pos token.Pos) {
 			panic(unsupportedErr{"havoc of unknown ghost " + name})
 		}
 		st.spec[name] = Val{T: c.fresh(name, old.T.Sort)}
+		return
+	}
+	if strings.HasPrefix(stmt, "let ") {
+		rest := strings.TrimPrefix(stmt, "let ")
+		k := strings.Index(rest, "=")
+		if k < 0 {
+			panic(unsupportedErr{"ghost let needs '=': " + stmt})
+		}
+		name := strings.TrimSpace(rest[:k])
+		v := env.evalSpecString(strings.TrimSpace(rest[k+1:]))
+		if v.Loc != nil {
+			st.spec[name] = v
+		} else {
+			st.spec[name] = Val{T: c.nameTerm(st, name, env.term(v, pos)), Const: v.Const}
+		}
 		return
 	}
 	k := strings.Index(stmt, "=")
